@@ -8,6 +8,7 @@ package blockstore
 // indexed.  The store invariant RI(b) is  wn(b.dataWriter) == pend(b).
 
 //@ func (*ReadWrite).PutMany
+//@   loop[0] step at_most_one_record_per_block [C01,C05,C07]: nrec(b.idx) <= athead(0, nrec(b.idx)) + 1
 //@   modifies wn(b.dataWriter), pend(b), nrec(b.idx), all(byCid), all(byMh), all(byDg)
 //@   requires ri: wn(b.dataWriter) == pend(b)
 //@   requires writer: b.dataWriter != nil && objinv(b.dataWriter)
@@ -116,11 +117,14 @@ package blockstore
 //@   call[ReadWrite.initWithRoots#0] assert args [C01,C05]: arg1 == !rwbs.opts.WriteAsCarV1 && arg2 == roots
 
 //@ func (*ReadWrite).AllKeysChan
+//@   ghost at entry: mark(b) := 0
 //@   let cerr0 := call[Context.Err#0]
 //@   ensures closed_err [C04]: old(b.ronly.closed) && cerr0 == nil ==> err == errClosed && result0 == nil
 //@   closure[0]
 //@     call[append#0] assert collects_the_key_of_the_record [C07,C08]: ref(arg0) == ref(keys) && len(arg1) == 1 && (b.opts.BlockstoreUseWholeCIDs ==> arg1[0] == old(c)) && (!b.opts.BlockstoreUseWholeCIDs ==> pversion(arg1[0]) == 1 && pcodec(arg1[0]) == 85 && mhof(arg1[0]) == mhof(old(c)))
 //@     ensures never_stops_the_walk [C07]: result == nil
+//@     ghost after call[append#*]: mark(b) := mark(b) + 1
+//@     ensures one_key_per_record [C07]: mark(b) == old(mark(b)) + 1
 //@   end
 //@   closure[1]
 //@     ghost after call[close#0]: chclosed(out) := 1
